@@ -1,0 +1,11 @@
+//go:build verif
+
+package filesystem
+
+import "github.com/cossacklabs/acra/keystore/v2/keystore/api"
+
+// VerifDecryptPrivateKey decrypts private key data of key seqnum of the key ring at path
+// (verification hook, add-only: lets the crash-recovery harness read key pair rings from raw files).
+func VerifDecryptPrivateKey(s api.KeyStore, path string, seqnum int, data []byte) ([]byte, error) {
+	return newKeyRing(s.(*KeyStore), path).decryptPrivateKey(seqnum, data)
+}
